@@ -196,8 +196,8 @@ E('repr', lambda t: repr(petl.wrap(t)), kind='noraise')
 E('diffheaders', lambda t: petl.diffheaders(t, t), kind='value', value=(set(), set()))
 E('diffvalues', lambda t: petl.diffvalues(t, t, 'a'), kind='value', value=(set(), set()))
 E('typeset', lambda t: petl.typeset(t, 'a'), kind='value', value=set())
-E('fromcolumns-roundtrip', lambda t: petl.fromcolumns([list(petl.values(t, f)) for f in HDR], header=list(HDR)))
-E('fromdicts-roundtrip', lambda t: petl.fromdicts(list(petl.dicts(t)), header=list(HDR)))
+E('fromcolumns-roundtrip', lambda t: petl.fromcolumns([list(petl.values(t, f)) for f in HDR], header=list(HDR)), eager=True)
+E('fromdicts-roundtrip', lambda t: petl.fromdicts(list(petl.dicts(t)), header=list(HDR)), eager=True)
 
 NAMES = [u[0] for u in U]
 BY_NAME = dict((u[0], u) for u in U)
@@ -220,12 +220,13 @@ for _op in ('join', 'leftjoin', 'rightjoin', 'outerjoin', 'lookupjoin', 'antijoi
     EB(_op + '-R', lambda t, _op=_op: getattr(petl, _op)(OTHER, t, key='a'))
     EB(_op + '-L-buffered-nocache', lambda t, _op=_op: getattr(petl, _op)(t, OTHER, key='a', buffersize=1, cache=False))
 for _op in ('hashjoin', 'hashleftjoin', 'hashrightjoin'):
-    EB(_op + '-L', lambda t, _op=_op: getattr(petl, _op)(t, OTHER, key='a'), stream='left')
-    EB(_op + '-R', lambda t, _op=_op: getattr(petl, _op)(OTHER, t, key='a'), stream='right')
+    # stream=True: t is the streamed side; 'build': t is the build side (read completely by design)
+    EB(_op + '-L', lambda t, _op=_op: getattr(petl, _op)(t, OTHER, key='a'), stream=('build' if _op == 'hashrightjoin' else True))
+    EB(_op + '-R', lambda t, _op=_op: getattr(petl, _op)(OTHER, t, key='a'), stream=(True if _op == 'hashrightjoin' else 'build'))
     EB(_op + '-L-nocache', lambda t, _op=_op: getattr(petl, _op)(t, OTHER, key='a', cache=False))
 for _op in ('hashlookupjoin', 'hashantijoin'):
-    EB(_op + '-L', lambda t, _op=_op: getattr(petl, _op)(t, OTHER, key='a'), stream='left')
-    EB(_op + '-R', lambda t, _op=_op: getattr(petl, _op)(OTHER, t, key='a'))
+    EB(_op + '-L', lambda t, _op=_op: getattr(petl, _op)(t, OTHER, key='a'), stream=True)
+    EB(_op + '-R', lambda t, _op=_op: getattr(petl, _op)(OTHER, t, key='a'), stream='build')
 EB('crossjoin-L', lambda t: petl.crossjoin(t, OTHER))
 EB('crossjoin-R', lambda t: petl.crossjoin(OTHER, t))
 for _op in ('complement', 'intersection', 'recordcomplement', 'hashcomplement', 'hashintersection'):
@@ -282,5 +283,24 @@ EB('movefield-last', lambda t: petl.movefield(t, 'a', 2), stream=True)
 EB('fillright-missing', lambda t: petl.fillright(t, missing=2), stream=True)
 EB('fillleft-missing', lambda t: petl.fillleft(t, missing=2), stream=True)
 EB('filldown-missing', lambda t: petl.filldown(t, 'a', missing=2), stream=True)
+ALL = U + B
+ALL_BY_NAME = dict((e[0], e) for e in ALL)
+
+EB('complement-presorted-L', lambda t: petl.complement(t, SAME, presorted=True), stream=True, look=2)
+EB('intersection-presorted-L', lambda t: petl.intersection(t, SAME, presorted=True), stream=True, look=2)
+EB('diff-presorted-L', lambda t: petl.diff(t, SAME, presorted=True), kind='pair', stream=True, look=2, members=[1])
+EB('join-presorted-L', lambda t: petl.join(t, OTHER, key='a', presorted=True), stream=True, look=2)
+EB('leftjoin-presorted-L', lambda t: petl.leftjoin(t, OTHER, key='a', presorted=True), stream=True, look=2)
+EB('antijoin-presorted-L', lambda t: petl.antijoin(t, OTHER, key='a', presorted=True), stream=True, look=2)
+EB('duplicates-presorted', lambda t: petl.duplicates(t, 'a', presorted=True), stream=True, look=2)
+EB('unique-presorted', lambda t: petl.unique(t, 'a', presorted=True), stream=True, look=2)
+EB('distinct-presorted', lambda t: petl.distinct(t, 'a', presorted=True), stream=True, look=2)
+EB('aggregate-presorted', lambda t: petl.aggregate(t, 'a', len, presorted=True), stream=True, look=2)
+EB('rowreduce-presorted', lambda t: petl.rowreduce(t, 'a', lambda k, rows: [k, len(list(rows))], header=['a', 'n'], presorted=True),
+   stream=True, look=2)
+EB('mergeduplicates-presorted', lambda t: petl.mergeduplicates(t, 'a', presorted=True), stream=True, look=2)
+EB('groupselectfirst-presorted', lambda t: petl.groupselectfirst(t, 'a', presorted=True), stream=True, look=2)
+EB('fold-presorted', lambda t: petl.fold(t, 'a', operator.add, 'b', presorted=True), stream=True, look=2)
+EB('mergesort-presorted-stream', lambda t: petl.mergesort(t, SAME, key='a', presorted=True), stream=True, look=2)
 ALL = U + B
 ALL_BY_NAME = dict((e[0], e) for e in ALL)
